@@ -310,8 +310,8 @@ Proof.
   intros Hok HC HW Hf H. change (WI (core_of (s', outs))). destruct o; cbn [step] in H.
   - exact (on_new_worker_WI (s, []) _ _ _ HW H).
   - destruct (find_proc _ w); [|discriminate]. exact (on_remove_worker_WI (s, []) _ _ _ _ _ _ Hok HC HW H).
-  - exact (handle_submit_array_WI (s, []) _ _ _ _ _ _ _ _ _ HW H).
-  - destruct (bad_graph_rq _ _); [inversion H; subst; exact HW|]. exact (handle_submit_graph_WI (s, []) _ _ _ _ _ HW H).
+  - destruct (bad_submit_lengths _ _); [inversion H; subst; exact HW|]. exact (handle_submit_array_WI (s, []) _ _ _ _ _ _ _ _ _ HW H).
+  - destruct (bad_graph_rq _ _); [inversion H; subst; exact HW|]. destruct (dead_dep _ _ _); [inversion H; subst; exact HW|]. exact (handle_submit_graph_WI (s, []) _ _ _ _ _ HW H).
   - unfold handle_open in H. inversion H; subst. exact HW.
   - unfold handle_close in H. cbn in H. destruct (find_job _ j) as [jb|]; [|inversion H; subst; exact HW].
     destruct (j_open jb); [|inversion H; subst; exact HW].
